@@ -28,7 +28,9 @@ ASSUMPTIONS = [
     "at a crash, bytes already passed to write() but still in the user-space buffer are lost (the file is read through an "
     "independent handle at that instant)",
     "history: 3 stored points (2 measurements), default flush_on_insert=True; operations: insert, insert_multiple(2), update, "
-    "remove, drop_measurement, remove_all, Measurement.remove_all, update_all; auto_index on/off",
+    "remove (with and without measurement filter), drop_measurement, remove_all, Measurement.remove_all/insert/update, update_all, update with callables / "
+    "time / unset, compact prefixes, insert_multiple(3), out-of-order insert; auto_index on/off; optionally after an early-stopping read and "
+    "after an earlier completed rewrite",
     "asserted: the file decodes (independent reader) to the old or the new contents (insert_multiple: old + a prefix of the new "
     "points) and a fresh TinyFlux(path) opens it with the same contents",
     "finite selectors: exhaustion == enumeration of boundaries",
@@ -52,7 +54,10 @@ def to_point(mp):
     return Point(time=mk_time(mp.t), measurement=mp.m, tags=dict(mp.tags), fields=dict(mp.fields))
 
 
-OPS = ("insert", "insert_multiple", "update", "remove", "drop_measurement", "remove_all", "handle_remove_all", "update_all", "remove_everything", "insert_out_of_order")
+OPS = (
+    "insert", "insert_multiple", "update", "remove", "drop_measurement", "remove_all", "handle_remove_all", "update_all", "remove_everything",
+    "insert_out_of_order", "insert_compact", "handle_insert", "insert_multiple3", "update_callable", "update_time", "remove_filtered", "handle_update", "update_unset",
+)
 
 
 def run_op(db, op):
@@ -69,6 +74,22 @@ def run_op(db, op):
         db.insert_multiple([to_point(new1), to_point(new2)])
     elif op == "update":
         db.update(qa, fields={"f": 9}, tags={"z": "1"})
+    elif op == "insert_compact":
+        db.insert(to_point(new1), compact_key_prefixes=True)
+    elif op == "handle_insert":
+        db.measurement("n").insert(to_point(new1))
+    elif op == "insert_multiple3":
+        db.insert_multiple([to_point(new1), to_point(new2), to_point(MP(T0 + 2_500_000, "m", {}, {"h": 0}))])
+    elif op == "update_callable":
+        db.update(qa, fields=lambda f: {"f": 9}, tags=lambda t: {"z": "1"})
+    elif op == "update_time":
+        db.update(qa, time=mk_time(T0 - 7_000_000))
+    elif op == "remove_filtered":
+        db.remove(TagQuery().k.exists(), "n")
+    elif op == "handle_update":
+        db.measurement("m").update(qa, fields={"f": 9}, tags={"z": "1"})
+    elif op == "update_unset":
+        db.update(qa, unset_tags=["j", "k"], unset_fields="f")
     elif op == "update_all":
         db.update_all(measurement="q")
     elif op == "remove":
@@ -92,6 +113,25 @@ def outcomes(op):
         return [old, old + [new1]]
     if op == "insert_out_of_order":
         return [old, old + [MP(T0 - 5, "m", {"k": "c"}, {"f": 7})]]
+    if op in ("insert_compact",):
+        return [old, old + [new1]]
+    if op == "handle_insert":
+        n1 = new1.copy()
+        n1.m = "n"
+        return [old, old + [n1]]
+    if op == "insert_multiple3":
+        new3 = MP(T0 + 2_500_000, "m", {}, {"h": 0})
+        return [old, old + [new1], old + [new1, new2], old + [new1, new2, new3]]
+    if op in ("update_callable", "handle_update"):
+        ch = make_change(fields={"f": 9}, tags={"z": "1"})
+        return [old, [ch(p.copy()) if p.tags.get("k") == "a" else p for p in old]]
+    if op == "update_time":
+        return [old, [make_change(time=T0 - 7_000_000)(p.copy()) if p.tags.get("k") == "a" else p for p in old]]
+    if op == "remove_filtered":
+        return [old, [p for p in old if p.m != "n"]]
+    if op == "update_unset":
+        ch = make_change(unset_tags=["j", "k"], unset_fields="f")
+        return [old, [ch(p.copy()) if p.tags.get("k") == "a" else p for p in old]]
     if op == "insert_multiple":
         return [old, old + [new1], old + [new1, new2]]
     if op == "update":
@@ -130,6 +170,12 @@ def h_crash(params):
     def body(h):
         for mp in base_points():
             h.db.insert(to_point(mp))
+        if params.get("pre_rewrite"):
+            # an earlier, completed rewrite: the primary handle was closed and reopened, a staging file came and went
+            from tinyflux import TagQuery
+
+            h.db.insert(to_point(MP(T0 + 1_500_000, "zz", {"k": "gone"}, {})))
+            h.db.remove(TagQuery().k == "gone")
         if params.get("pre_read"):
             from tinyflux import TagQuery
 
@@ -260,6 +306,7 @@ def obligations(tier):
     for op in OPS:
         for ai in (True, False):
             for pre in (False, True):
-                obs.append({"id": f"crash/{op}/{'ai' if ai else 'noai'}{'/after-read' if pre else ''}", "harness": "h_crash", "params": {"op": op, "ai": ai, "pre_read": pre}, "budget_s": 120})
+                for rew in (False, True):
+                    obs.append({"id": f"crash/{op}/{'ai' if ai else 'noai'}{'/after-read' if pre else ''}{'/after-rewrite' if rew else ''}", "harness": "h_crash", "params": {"op": op, "ai": ai, "pre_read": pre, "pre_rewrite": rew}, "budget_s": 120})
     obs.append({"id": "twin/crash", "harness": "h_crash", "params": {"op": "update", "ai": True, "twin": True}, "budget_s": 60})
     return obs
